@@ -182,12 +182,37 @@ structure State where
 
 def init : State := {}
 
+/-- length of the trailing run of bytes equal to the last one -/
+def trailingRun : List Nat → Nat
+  | [] => 0
+  | l => let r := l.reverse; (r.takeWhile (· = r.head!)).length
+
+/-- hex; a trailing run of at least 64 equal bytes is written `<hex of the rest>+<byte>x<length>` -/
+def hexc (b : Bytes) : String :=
+  if b.isEmpty then "-" else
+  let n := trailingRun b
+  if n ≥ 64 then
+    String.ofList ((b.take (b.length - n)).flatMap fun x => [Util.hexChar (x / 16 % 16), Util.hexChar (x % 16)])
+      ++ "+" ++ String.ofList [Util.hexChar (b.getLast! / 16 % 16), Util.hexChar (b.getLast! % 16)] ++ "x" ++ toString n
+  else Util.hex b
+
+def unhexc (s : String) : Option Bytes :=
+  match s.splitOn "+" with
+  | [pre, run] =>
+    match run.splitOn "x" with
+    | [bb, n] =>
+      match Util.unhex (if pre.isEmpty then "-" else pre), Util.unhex bb, n.toNat? with
+      | some p, some [b], some n => if n ≤ 1048576 then some (p ++ List.replicate n b) else none
+      | _, _, _ => none
+    | _ => none
+  | _ => Util.unhex s
+
 def showRes : Res → String
   | .ok => "ok"
   | .nothing => "none"
-  | .val b => "v:" ++ Util.hex b
+  | .val b => "v:" ++ hexc b
   | .ver i => "n:" ++ toString i
-  | .name b => "b:" ++ Util.hex b
+  | .name b => "b:" ++ hexc b
   | .errTx => "err:tx"
   | .errMarshal => "err:marshal"
   | .errUnmarshal => "err:unmarshal"
@@ -207,9 +232,9 @@ def names (s : String) : List Bytes := if s = "-" then [] else (s.splitOn ",").m
 /-- a call in a concurrent segment: `s,svc,key,raw,value` | `l,svc,key` | `r,svc,key` -/
 def parseCall (s : String) : Option (Bytes × Op) :=
   match s.splitOn "," with
-  | ["s", svc, k, raw, _goValue] => do pure (ascii svc, .save (← Util.unhex k) (← Util.unhex raw))
-  | ["l", svc, k] => do pure (ascii svc, .load (← Util.unhex k))
-  | ["r", svc, k] => do pure (ascii svc, .loadRaw (← Util.unhex k))
+  | ["s", svc, k, raw, _goValue] => do pure (ascii svc, .save (← unhexc k) (← unhexc raw))
+  | ["l", svc, k] => do pure (ascii svc, .load (← unhexc k))
+  | ["r", svc, k] => do pure (ascii svc, .loadRaw (← unhexc k))
   | _ => none
 
 def opKey : Op → Bytes
@@ -240,7 +265,7 @@ def call (s : State) (svc : String) (op : Op) : State × String :=
 def step (s : State) (toks : List String) : State × String :=
   match toks with
   | ["tags", l] =>
-    match (if l = "-" then some [] else (l.splitOn ",").mapM Util.unhex) with
+    match (if l = "-" then some [] else (l.splitOn ",").mapM unhexc) with
     | some ts => ({ s with known := ts }, "ok")
     | none => (s, "bad-op")
   | ["start", l] =>
@@ -248,19 +273,19 @@ def step (s : State) (toks : List String) : State × String :=
     else ({ s with db := startServer s.db (names l), services := names l, up := true }, "ok")
   | ["stop"] => if s.up then ({ s with up := false }, "ok") else (s, "bad-op")
   | ["save", svc, k, raw, _goValue] =>     -- the fifth token describes the Go value (harness only)
-    match Util.unhex k, Util.unhex raw with
+    match unhexc k, unhexc raw with
     | some k, some raw => call s svc (.save k raw)
     | _, _ => (s, "bad-op")
   | ["savebad", svc, k] =>
-    match Util.unhex k with
+    match unhexc k with
     | some k => call s svc (.saveBad k)
     | none => (s, "bad-op")
   | ["load", svc, k] =>
-    match Util.unhex k with
+    match unhexc k with
     | some k => call s svc (.load k)
     | none => (s, "bad-op")
   | ["raw", svc, k] =>
-    match Util.unhex k with
+    match unhexc k with
     | some k => call s svc (.loadRaw k)
     | none => (s, "bad-op")
   | ["savever", svc, v] =>
@@ -269,19 +294,19 @@ def step (s : State) (toks : List String) : State × String :=
     | none => (s, "bad-op")
   | ["loadver", svc] => call s svc .loadVersion
   | ["addb", svc, x] =>
-    match Util.unhex x with
+    match unhexc x with
     | some x => call s svc (.addBucket x)
     | none => (s, "bad-op")
   | ["bput", svc, x, k, v] =>
-    match Util.unhex x, Util.unhex k, Util.unhex v with
+    match unhexc x, unhexc k, unhexc v with
     | some x, some k, some v => call s svc (.bput x k v)
     | _, _, _ => (s, "bad-op")
   | ["bget", svc, x, k] =>
-    match Util.unhex x, Util.unhex k with
+    match unhexc x, unhexc k with
     | some x, some k => call s svc (.bget x k)
     | _, _ => (s, "bad-op")
   | ["bdel", svc, x, k] =>
-    match Util.unhex x, Util.unhex k with
+    match unhexc x, unhexc k with
     | some x, some k => call s svc (.bdel x k)
     | _, _ => (s, "bad-op")
   | ["par", threads, lin] =>
